@@ -351,6 +351,8 @@ enum CommandExecutionError {
     Killed { signal: i32 },
     CannotRun(io::Error),
     NotFound,
+    // the command line built by -I/-i does not fit the limits
+    TooLarge,
     Unknown,
 }
 
@@ -363,6 +365,7 @@ impl Display for CommandExecutionError {
             }
             Self::CannotRun(err) => write!(f, "Command could not be run: {err}"),
             Self::NotFound => write!(f, "Command not found"),
+            Self::TooLarge => write!(f, "Argument too large"),
             Self::Unknown => write!(f, "Unknown error running command"),
         }
     }
@@ -379,6 +382,10 @@ struct CommandBuilderOptions {
     action: ExecAction,
     env: HashMap<OsString, OsString>,
     limiters: LimiterCollection,
+    /// The limiters before the initial arguments were charged to them. With
+    /// -I/-i the arguments that are really passed are the substituted ones, so
+    /// each command line is checked against these once it has been built.
+    unused_limiters: LimiterCollection,
     verbose: bool,
     close_stdin: bool,
     replace: Option<String>,
@@ -394,6 +401,7 @@ impl CommandBuilderOptions {
             ExecAction::Command(args) => args.iter().map(std::convert::AsRef::as_ref).collect(),
             ExecAction::Echo => vec![OsStr::new("echo")],
         };
+        let unused_limiters = limiters.clone();
 
         for arg in initial_args {
             limiters.try_arg(Argument {
@@ -406,6 +414,7 @@ impl CommandBuilderOptions {
             action,
             env,
             limiters,
+            unused_limiters,
             verbose: false,
             close_stdin: false,
             replace,
@@ -453,6 +462,19 @@ impl CommandBuilder<'_> {
                     OsString::from(arg_str.replace(replace_str, &replacement))
                 })
                 .collect();
+
+            let mut limiters = self.options.unused_limiters.clone();
+            for arg in
+                std::iter::once(entry_point).chain(initial_args.iter().map(|a| a.as_os_str()))
+            {
+                let fits = limiters.try_arg(Argument {
+                    arg: arg.to_owned(),
+                    kind: ArgumentKind::Initial,
+                });
+                if fits.is_err() {
+                    return Err(CommandExecutionError::TooLarge);
+                }
+            }
 
             command
                 .args(&initial_args)
@@ -1101,7 +1123,7 @@ pub fn xargs_main(args: &[&str]) -> i32 {
                     CommandExecutionError::Killed { .. } => 125,
                     CommandExecutionError::CannotRun(_) => 126,
                     CommandExecutionError::NotFound => 127,
-                    CommandExecutionError::Unknown => 1,
+                    CommandExecutionError::TooLarge | CommandExecutionError::Unknown => 1,
                 }
             } else {
                 1
